@@ -121,6 +121,13 @@ def _judge(rec, name, pname, got, ref, allow, noise, ctx):
   return v
 
 
+def _fold(rec, n0, sig):
+  """Replaces the signatures of the violations recorded since index n0 by one mechanism-level signature (keeps one)."""
+  if len(rec.violations) > n0:
+    rec.violations[n0]["sig"] = sig
+    del rec.violations[n0 + 1 :]
+
+
 def _minsize(mjm, g):
   t = int(mjm.geom_type[g])
   if t in (0, 1):
@@ -150,7 +157,7 @@ def classify(t1, t2, flagset):
   return num, True, ""
 
 
-def compare_world(rec, case, mjm, qpos, got, w, rng):
+def compare_world(rec, case, mjm, qpos, got, w, rng, nofilter_pairs):
   flagset = case["flags"]
   ref, mjd = _col.mj_collide(mjm, qpos)
   probes = [_col.mj_collide(mjm, _col.perturb_qpos(mjm, qpos, rng))[0] for _ in range(3)]
@@ -203,8 +210,21 @@ def compare_world(rec, case, mjm, qpos, got, w, rng):
         if t1 == "hfield" and dmin > -2e-3:
           rec.count("pair_borderline")
           continue
+        bnd = band(dmin, margin, gap)
+        geom_thr = float(mjm.geom_margin[g1] + mjm.geom_margin[g2] + mjm.geom_gap[g1] + mjm.geom_gap[g2])
+        if key in nofilter_pairs(w):
+          # present once every candidate pair reaches the narrowphase: a bounding-volume filter dropped it
+          sig = "missing-pair:dropped-by-broadphase-filter" + (":explicit-pair-margin" if (pid >= 0 and thr > geom_thr and dmin >= 0) else "")
+        elif pname == "plane-mesh" and dmin > 0:
+          sig = "missing-pair:plane-mesh:dist>0"
+        elif bnd == "gap-band" and (pname == "capsule-capsule" or (pname == "box-box" and flagset == "nonative")):
+          sig = "missing-pair:gap-band:narrowphase-cuts-at-margin"
+        elif num == "ccd" and bnd == "margin-band" and t1 != "hfield":
+          sig = "missing-pair:ccd-narrowphase:margin-band"
+        else:
+          sig = f"missing-pair:{'explicit-pair' if pid >= 0 else pname}:{bnd}"
         rec.viol(
-          f"missing-pair:{'explicit-pair' if pid >= 0 else pname}:{band(dmin, margin, gap)}",
+          sig,
           f"MuJoCo reports {len(ia)} contact(s), MJWarp none; dist={dmin:.6g} margin={margin:.4g} gap={gap:.4g} {ctx}",
           dist=ref["dist"][ia], pos=ref["pos"][ia],
         )  # fmt: skip
@@ -280,6 +300,7 @@ def compare_world(rec, case, mjm, qpos, got, w, rng):
       rec.count("unjudged:deep_penetration")
       continue
     cls = num
+    nv0 = len(rec.violations)
     vd = _judge(rec, f"dist[{cls}]", pname, dgot, dref, allow[0], noise_d * C_NOISE_SCALE, ctx)
     grazing = abs(dref) < 2e-6 and num == "ccd"
     vn = "ok"
@@ -302,11 +323,17 @@ def compare_world(rec, case, mjm, qpos, got, w, rng):
         del rec.violations[len(rec.violations) - nv :]
         rec.count("deepest_differs_but_valid_and_not_worse")
         continue
+    boxprim = pname == "box-box" and flagset == "nonative"
+    if boxprim:
+      _fold(rec, nv0, "box-box-primitive:deepest-contact-differs")
     # ---- counts / positions
+    nv1 = len(rec.violations)
     if len(ia) != len(ib):
       if strict:
         rec.check()
-        sub = ":upper-corners-reported" if (pname == "plane-box" and len(ib) > 4) else ""
+        sub = ":upper-corners-reported" if (pname == "plane-box" and len(ib) > 4 and len(ia) <= 4) else ""
+        if pname == "capsule-box":
+          sub = ":second-contact"  # deepest contact agreed (checked above); only the auxiliary second contact differs
         rec.viol(f"count:{pname}{sub}", f"{len(ib)} contacts vs MuJoCo {len(ia)} {ctx}", mj_dist=ref["dist"][ia], mjw_dist=got["dist"][ib])
       else:
         rec.count("count_differs_allowed:" + why)
@@ -333,7 +360,17 @@ def compare_world(rec, case, mjm, qpos, got, w, rng):
         v = _judge(rec, f"normal_all[{cls}]", pname, got["frame"][bj][:3], ref["frame"][ai][:3], allow[2], nfr * C_NOISE_SCALE, ctx)
         # mju_makeFrame switches the tangent construction at |n_y| = 0.5: not comparable when the normal sits on the switch
         if v == "ok" and abs(abs(float(ref["frame"][ai][1])) - 0.5) > 3 * allow[2]:
-          cmp.judge(rec, f"tangents:{pname}", got["frame"][bj][3:], ref["frame"][ai][3:], allow[2], nfr * C_NOISE_SCALE, ctx=ctx)
+          tsig = f"tangents:{pname}"
+          if pname == "plane-capsule":
+            nn = np.asarray(ref["frame"][ai][:3], dtype=np.float64)
+            ax = np.asarray(mjd.geom_xmat[g2], dtype=np.float64).reshape(3, 3)[:, 2]
+            if np.linalg.norm(ax - nn * (nn @ ax)) < 0.5:
+              tsig += ":axis-projection<0.5"  # MJWarp falls back to a world axis, MuJoCo still aligns with the capsule
+          cmp.judge(rec, tsig, got["frame"][bj][3:], ref["frame"][ai][3:], allow[2], nfr * C_NOISE_SCALE, ctx=ctx)
+    if boxprim:
+      _fold(rec, nv1, "box-box-primitive:deepest-contact-differs")
+    elif pname == "capsule-box" and len(ia) == 2:
+      _fold(rec, nv1, "count:capsule-box:second-contact")
     rec.cover("strict_matched:" + pname, len(ia))
   return ncontact_ref
 
@@ -353,7 +390,7 @@ def _hfield(rec, ref, ia, got, ib, xsig, ctx):
     if r > 1:
       into = float(got["frame"][b][2]) < -0.5  # the height field geom is never rotated in these scenes: its z is world z
       rec.viol(
-        "hfield:contact-normal-into-terrain" if into else "hfield:contact-not-in-reference" + xsig,
+        "hfield:contact-normal-into-terrain" if into else "hfield:contact-not-in-reference",
         f"height-field contact pos {got['pos'][b]} dist {got['dist'][b]:.6g} normal {got['frame'][b][:3]} has no MuJoCo counterpart (best score {r:.3g}) {ctx}",
         mj_dist=ref["dist"][ia], mj_pos=ref["pos"][ia],
       )  # fmt: skip
@@ -362,7 +399,7 @@ def _hfield(rec, ref, ia, got, ib, xsig, ctx):
   r = (dgot - dref) / tol_dist
   rec.worst("hfield_deepest", r)
   if r > 1:
-    rec.viol("hfield:deepest-contact-missed" + xsig, f"MuJoCo's deepest height-field contact dist {dref:.6g} is not reported (MJWarp deepest {dgot:.6g}) {ctx}")
+    rec.viol("hfield:deepest-contact-missed", f"MuJoCo's deepest height-field contact dist {dref:.6g} is not reported (MJWarp deepest {dgot:.6g}) {ctx}")
   rec.cover("hfield_pairs_judged", 1)
 
 
@@ -388,9 +425,21 @@ def run_case(case):
   if np.any(ov) or nacon > d.naconmax or ncoll > d.naconmax:
     rec.inconcl(f"capacity overflow bits={ov.tolist()} nacon={nacon} ncollision={ncoll} naconmax={d.naconmax}")
     return rec.result()
+  nf = {}
+
+  def nofilter_pairs(w):
+    """geom pairs of world w that have a contact when no broadphase filter is applied (computed on demand)."""
+    if "p" not in nf:
+      old = m.opt.broadphase_filter
+      m.opt.broadphase_filter = 0
+      _, c0 = _col.mjw_collide(mjm, m, qs, d=d)
+      m.opt.broadphase_filter = old
+      nf["p"] = [set(_col.group_by_pair(x)) for x in c0]
+    return nf["p"][w]
+
   total = 0
   for w, q in enumerate(qs):
-    total += compare_world(rec, case, mjm, q, cw[w], w, rng)
+    total += compare_world(rec, case, mjm, q, cw[w], w, rng, nofilter_pairs)
   for f in feats:
     rec.cover("features", f)
   rec.cover("worlds_compared", len(qs))
